@@ -533,7 +533,10 @@ func c13a(c *Ctx) {
 			if call, ok := v.(*ssa.Call); ok && callee(call) == try {
 				n++
 				arg := c.term(fn, call.Call.Args[1])
-				c.Check(strings.HasSuffix(arg, ".Literal"), key, pos, "token literal passed through tryReplaceWithConstant", "tryReplaceWithConstant is applied to "+pretty(arg)+", expected a token literal")
+				// ... of the token being consumed (the parser's current token, an element of a token
+				// list, a token handed in) — not of a token that is still ahead
+				okTok := strings.HasSuffix(arg, ".Literal") && !c.readsLookahead(fn, call.Call.Args[1], call)
+				c.Check(okTok, key, pos, "token literal passed through tryReplaceWithConstant ("+arg+")", "tryReplaceWithConstant is applied to "+pretty(arg)+", expected the literal of the token being consumed")
 				return
 			}
 			if strings.HasSuffix(t, ".Literal") {
@@ -1312,8 +1315,8 @@ func c14d(c *Ctx) {
 			if len(ret.Results) != 2 {
 				continue
 			}
-			if k, isC := ret.Results[1].(*ssa.Const); !isC || !k.IsNil() {
-				continue // an error return
+			if k, isC := ret.Results[0].(*ssa.Const); isC && k.IsNil() {
+				continue // an error return hands on no list
 			}
 			n++
 			c.Check(okOrigin(fn, ret.Results[0], "parseMovementValue"), fmt.Sprintf("parseMovesOperator/list-handed-on-unchanged#%d", n), c.W.Pos(ret.Pos()), "moves() hands on the list parseMovementValue returned", "moves() returns "+pretty(c.term(fn, ret.Results[0]))+" instead of the list parseMovementValue returned: steps are added, dropped or rearranged between parsing and hoisting")
@@ -2012,4 +2015,54 @@ func c12g(c *Ctx) {
 		}
 	}
 	c.Check(n >= 2, "case-parsers", "-", fmt.Sprintf("%d list poryswitch sites", n), "list poryswitch sites not found")
+}
+
+// readsLookahead: the value is read from one of the parser's look-ahead tokens (peekToken,
+// peek2Token, ...) and used without the parser having advanced in between — it is the literal of
+// a token that is still ahead, not of the one being consumed.
+func (c *Ctx) readsLookahead(fn *ssa.Function, v ssa.Value, use ssa.Instruction) bool {
+	var load ssa.Instruction
+	peek := false
+	for i := 0; i < 6 && !peek; i++ {
+		switch x := v.(type) {
+		case *ssa.UnOp:
+			if load == nil {
+				load = x
+			}
+			v = x.X
+		case *ssa.Field:
+			v = x.X
+		case *ssa.FieldAddr:
+			if typeIs(x.X.Type(), "parser", "Parser") {
+				if !strings.HasPrefix(fieldName(x.X.Type(), x.Field), "peek") {
+					return false
+				}
+				peek = true
+			}
+			v = x.X
+		default:
+			return false
+		}
+	}
+	if !peek || load == nil {
+		return false
+	}
+	advances := func(in ssa.Instruction) bool {
+		ci, ok := in.(ssa.CallInstruction)
+		if !ok {
+			return false
+		}
+		g := callee(ci)
+		if g == nil || !c.W.InRepo(g) {
+			return false
+		}
+		for _, w := range c.Eff().Writes(g) {
+			if w == "parser.Parser.curToken" {
+				return true
+			}
+		}
+		return false
+	}
+	_, found := existsPath(pathQuery{from: after(load), target: func(in ssa.Instruction) bool { return in == use }, avoid: advances})
+	return found
 }
